@@ -109,3 +109,21 @@ func H_C13_fmt() {
 	vAssert("C13.layout", sameBytes(got, want))
 	vReach("end")
 }
+
+// H_C13_zero: the text of a zero does not depend on the exponent (or mantissa
+// buffer) left over from a previous finite value.
+func H_C13_zero() {
+	f := byte(vCfg("fmt"))
+	P := vCfgOr("P", -1)
+	x := vDec("x", fZero, 1, vCfgOr("capx", 2), 0)
+	ref := new(Decimal)
+	ref.neg = x.neg
+	var got, want []byte
+	k := vCatch(func() {
+		got = x.Append(make([]byte, 0, 64), f, P)
+		want = ref.Append(make([]byte, 0, 64), f, P)
+	})
+	vAssert("C13.nopanic", k == 0)
+	vAssert("C13.zero", sameBytes(got, want))
+	vReach("end")
+}
